@@ -122,7 +122,10 @@ def run(run, ctx, fns, label, restrict=None):
                                     "by": s.proof})
             continue
         cands = _match_entries(entries, s, ctx.facts)
-        e = next((x for x in cands if used.get(id(x), 0) < x["count"]), cands[0] if cands else None)
+        free = [x for x in cands if used.get(id(x), 0) < x["count"]]
+        # among entries with room prefer one whose required guards this site establishes, the most demanding first
+        fit = sorted([x for x in free if all(m in s.proved_obls for m in x.get("must", []))], key=lambda x: -len(x.get("must", [])))
+        e = fit[0] if fit else (free[0] if free else (cands[0] if cands else None))
         fnp = strip_generics(s.fn)
         okey = (fnp, s.kind, s.opstr())
         ordinal[okey] = ordinal.get(okey, 0) + 1
